@@ -1,7 +1,11 @@
 """Minimal 7z writer for the C12 checks (reference layout: 7-Zip 7zFormat.txt).
 
-One folder per entry of `folders`; every folder has ONE coder (COPY / LZMA / LZMA2) and
-holds one or more files (solid).  Pack streams are laid out consecutively from offset 32.
+One folder per entry of `folders`; a folder has ONE coder (COPY / LZMA / LZMA2) or a coder CHAIN
+("chain": [coder 0, coder 1, ...] — coder 0 yields the folder's data, the last coder reads the pack stream,
+bind pairs in-stream i <- out-stream i+1: what 7-Zip writes with -mf=BCJ / -mf=Delta is [BCJ, LZMA2] /
+[DELTA, LZMA2]) and holds one or more files (solid).  Filters (BCJ x86, Delta, ARM, ...) are written as the
+identity: exact for payloads without branch opcodes (the payloads here are ASCII text), and the library passes
+BCJ through / refuses the others anyway.  Pack streams are laid out consecutively from offset 32.
 Sizes written in the header can be forged independently of the data (declared_* arguments).
 """
 from __future__ import annotations
@@ -11,6 +15,21 @@ import struct
 import zlib
 
 COPY, LZMA, LZMA2 = b"\x00", b"\x03\x01\x01", b"\x21"
+BCJ, DELTA, ARM, PPC, SPARC = b"\x03\x03\x01\x03", b"\x03", b"\x03\x03\x05\x01", b"\x03\x03\x02\x05", b"\x03\x03\x08\x05"
+FILTERS = (BCJ, DELTA, ARM, PPC, SPARC)
+CODER_NAMES = {COPY: "copy", LZMA: "lzma", LZMA2: "lzma2", BCJ: "bcj", DELTA: "delta", ARM: "arm", PPC: "ppc", SPARC: "sparc"}
+CODER_BY_NAME = {v: k for k, v in CODER_NAMES.items()}
+
+
+def encode_stage(m: bytes, data: bytes):
+    """(properties, encoded data) of one coder"""
+    if m == LZMA:
+        return lzma_raw(data)
+    if m == LZMA2:
+        return lzma2_raw(data)
+    if m == DELTA:
+        return b"\x00", data            # distance 1; written as the identity (see module docstring)
+    return None, data
 
 
 def number(n: int) -> bytes:
@@ -45,16 +64,17 @@ def build(folders, declared_file_sizes=None, num_files_override=None, names_over
     packs, coders, unpack_sizes, files = [], [], [], []
     for f in folders:
         raw = b"".join(d for _, d in f["files"])
-        m = f.get("method", COPY)
-        if m == COPY:
-            props, packed = None, raw
-        elif m == LZMA:
-            props, packed = lzma_raw(raw)
-        else:
-            props, packed = lzma2_raw(raw)
-        packs.append(packed)
-        coders.append((m, props))
-        unpack_sizes.append(f.get("declared_unpack", len(raw)))
+        chain = list(f["chain"]) if f.get("chain") else [f.get("method", COPY)]
+        stage, cs, sizes = raw, [], []
+        for m in chain:                      # encoding applies coder 0 first; decoding runs the chain backwards
+            sizes.append(len(stage))
+            props, stage = encode_stage(m, stage)
+            cs.append((m, props))
+        packs.append(stage)
+        coders.append(cs)
+        if "declared_unpack" in f:
+            sizes = [f["declared_unpack"]] * len(chain)
+        unpack_sizes.append(sizes)
         files.append(f["files"])
     h = bytearray()
     h += b"\x01"                                   # Header
@@ -62,13 +82,16 @@ def build(folders, declared_file_sizes=None, num_files_override=None, names_over
     h += b"\x06" + number(0) + number(len(packs))  # PackInfo
     h += b"\x09" + b"".join(number(len(p)) for p in packs) + b"\x00"
     h += b"\x07\x0b" + number(len(folders)) + b"\x00"   # UnpackInfo / Folder, not external
-    for m, props in coders:
-        h += number(1)
-        flags = len(m) | (0x20 if props is not None else 0)
-        h += bytes([flags]) + m
-        if props is not None:
-            h += number(len(props)) + props
-    h += b"\x0c" + b"".join(number(u) for u in unpack_sizes) + b"\x00"
+    for cs in coders:
+        h += number(len(cs))
+        for m, props in cs:
+            flags = len(m) | (0x20 if props is not None else 0)
+            h += bytes([flags]) + m
+            if props is not None:
+                h += number(len(props)) + props
+        for i in range(len(cs) - 1):                # bind pairs: in-stream of coder i <- out-stream of coder i + 1
+            h += number(i) + number(i + 1)
+    h += b"\x0c" + b"".join(number(u) for us in unpack_sizes for u in us) + b"\x00"
     h += b"\x08\x0d" + b"".join(number(len(fs)) for fs in files)   # SubStreamsInfo
     h += b"\x09"
     k = 0
